@@ -167,7 +167,7 @@ end
 theorem C04.agree_refl (t : St) (hoff : t.cfg.cacheOn = false) (hpos : 0 < t.frames.size) (hdec : RefDec t) :
     C04.AgreeExcept (fun _ _ => False) t t :=
   ⟨rfl, hoff, rfl, rfl, rfl, rfl, rfl, rfl, rfl, hpos, fun _ ft h => ⟨ft, h, rfl, rfl, rfl, rfl, rfl, fun _ _ => rfl⟩,
-    fun _ _ h => h.elim, fun _ _ _ v _ _ _ => cleanD_false v, hdec⟩
+    fun _ _ h => h.elim, fun _ _ h => h.elim, fun _ _ _ v _ _ _ => cleanD_false v, hdec⟩
 
 /-- the state after `func fib(n){…}; x = 5; fib(6)` with the cache on: one entry, `fib(6) ↦ 8` -/
 def hitState : St := { detState 5 with cfg := { cacheOn := true }, cache := [⟨fibKey, [.int 6], .int 8, []⟩] }
